@@ -36,7 +36,8 @@ def nearest_rule(ctx, prog, cls, RID):
     ctx.saw(fh)
     preq, plast = fh.param_ids[0], fh.param_ids[1]
     loops = [n for n in fh.all_nodes() if n.k == 'ForStmt']
-    lbs = [c for c in fh.calls() if c.callee is not None and c.callee.get('n') == 'lower_bound' and c.args and q.refers_to_decl(c.args[0], preq)]
+    lbs = [c for c in fh.calls() if c.callee is not None and c.callee.get('n') == 'lower_bound' and c.args and
+           any(x.k == 'DeclRefExpr' and x.declid == preq for x in c.args[0].walk())]
     rets = [n for (v, kind, n) in fh.cfg.exits() if kind == 'return']
     if len(loops) == 1 and not lbs:
         okn = False
